@@ -12,7 +12,7 @@
  * scheduling points, i.e. atomically with the preceding tracked access (the
  * spec does the same inside the label of that access).  "repush" must not be
  * the first operation of a thread (the thread's start step is silent).
- * Registered names: drv (tries: retries of waiting pops), q (counter), f<i> (head, tail), s<i> (initial stub of sub-queue i), nodes, values.
+ * Registered names: drv (tries: retries of waiting pops, sh: nodes taken from the free list), q (counter), f<i> (head, tail), s<i> (initial stub of sub-queue i), nodes, values.
  */
 #include "mpsc_relaxed_fifo.h"
 #include "thr_common.h"
@@ -26,8 +26,15 @@ static char vals[48][8];
 static char val_names[48][16];
 static int nvals;
 static spsc_node_t* spare[128];
-static int spare_h, spare_t;
-static uint64_t drv_tries; /* registered as drv.tries: retries of waiting pops */
+static int spare_t;
+/* registered as drv.tries (retries of waiting pops) and drv.sh (number of nodes taken from the
+   free list; VF_NOSCHED: not a scheduling point, but diffed, so that a take is recorded even
+   when it happens in an otherwise silent step such as the return from cpu_relax()) */
+static struct {
+  uint64_t tries, sh;
+} drv;
+#define spare_h drv.sh
+static int pushes_done, pops_done; /* driver accounting (plain memory, see popw) */
 
 static const vrt_field_t node_fields[] = {
     {"data", offsetof(spsc_node_t, data), 8, VD_PTR, 0, 0},
@@ -78,8 +85,9 @@ static void drv_setup(void) {
       if (!strcmp(t_ops[t][i].op, "push")) val_ptr(t_ops[t][i].a3);
       if (!strncmp(t_ops[t][i].op, "repush", 6)) val_ptr(t_ops[t][i].a2);
     }
-  static const vrt_field_t df[] = {{"tries", 0, 8, VD_U64, 0, 0}};
-  vrt_reg_obj("drv", &drv_tries, sizeof drv_tries, df, 1);
+  static const vrt_field_t df[] = {{"tries", offsetof(__typeof__(drv), tries), 8, VD_U64, 0, 0},
+                                   {"sh", offsetof(__typeof__(drv), sh), 8, VD_U64, VF_NOSCHED, 0}};
+  vrt_reg_obj("drv", &drv, sizeof drv, df, 2);
   vrt_reg_obj("q", q, offsetof(mpscr_fifo_t, fifos), qf, 1);
   for (int i = 0; i < np; i++) {
     snprintf(name, sizeof name, "f%d", i);
@@ -90,6 +98,7 @@ static void do_push(int tid, size_t p, spsc_node_t* n, const char* v) {
   vrt_api("\"f\":\"t%d\",\"ph\":\"call\",\"op\":\"push\",\"o\":\"%s\",\"v\":\"%s\",\"n\":%d", tid, vrt_name_of(n), v, (int)p);
   n->data = val_ptr(v);
   mpscr_fifo_push(q, p, n);
+  pushes_done++;
   vrt_api("\"f\":\"t%d\",\"ph\":\"ret\",\"op\":\"push\",\"o\":\"%s\",\"v\":\"%s\",\"n\":%d", tid, vrt_name_of(n), v, (int)p);
 }
 static int do_pop(int tid) {
@@ -103,6 +112,7 @@ static int do_pop(int tid) {
   const char* o = vrt_name_of(n);
   if (n) {
     spare[spare_t++] = n;
+    pops_done++;
     vrt_progress(); /* the free list is not tracked memory: tell the scheduler that waiters may go on */
   }
   vrt_api("\"f\":\"t%d\",\"ph\":\"ret\",\"op\":\"pop\",\"o\":\"%s\",\"v\":\"%s\"", tid, o, vbuf);
@@ -115,13 +125,18 @@ static void drv_op(int tid, const char* op, const char* a1, const char* a2, cons
     do_pop(tid);
   } else if (!strcmp(op, "popw")) {
     while (!do_pop(tid)) {
-      drv_tries++; /* tracked: one recorded event per turn of the retry loop */
-      cpu_relax();
+      /* Yield (the scheduler does not run this thread again until another thread changes
+         something) only if no COMPLETED push is pending: an "empty" result can be stale
+         (a sub-queue visited early may have been filled while the later ones were visited),
+         and then nobody would ever change anything again -> false "quiescent".  No
+         scheduling point lies between the failed observation, this test and the yield. */
+      if (pushes_done == pops_done) cpu_relax();
+      drv.tries++; /* tracked: one recorded event per turn of the retry loop */
     }
   } else if (!strcmp(op, "repush")) {
-    if (spare_h < spare_t) do_push(tid, (size_t)atoi(a1), spare[spare_h++], a2);
+    if (spare_h < (uint64_t)spare_t) do_push(tid, (size_t)atoi(a1), spare[spare_h++], a2);
   } else if (!strcmp(op, "repushw")) {
-    while (spare_h == spare_t) cpu_relax();
+    while (spare_h == (uint64_t)spare_t) cpu_relax();
     do_push(tid, (size_t)atoi(a1), spare[spare_h++], a2);
   } else {
     fprintf(stderr, "unknown op %s\n", op);
